@@ -31,6 +31,9 @@ func main() {
 		seed, _ = strconv.ParseInt(s, 10, 64)
 	}
 	switch args[0] {
+	case "census":
+		census(*repo)
+		return
 	case "list":
 		for _, id := range rules.IDs() {
 			fmt.Println(id)
